@@ -22,11 +22,14 @@ else
 SAN     := -fsanitize=address,undefined -fno-sanitize-recover=null,bounds,object-size,pointer-overflow -fno-omit-frame-pointer
 INITPAT := -ftrivial-auto-var-init=pattern
 endif
-COMMON  := -O1 -g $(DWARF) $(SAN) $(INITPAT) $(GUARD) -DSYSTEM_ENDIANNESS_LITTLE -DUFW_USE_BUILTIN_SWAP -D_DEFAULT_SOURCE
+# EXTRA_DEFS: build variant (./check builds a second set of binaries with -DNDEBUG under $(BUILD)/nd: the library's and the
+# header macros' assert()s compiled out, as in a release build of the library)
+EXTRA_DEFS ?=
+COMMON  := -O1 -g $(DWARF) $(SAN) $(INITPAT) $(GUARD) $(EXTRA_DEFS) -DSYSTEM_ENDIANNESS_LITTLE -DUFW_USE_BUILTIN_SWAP -D_DEFAULT_SOURCE
 INC     := -I$(BUILD)/cfg/include -I$(UFW_SRC)/include
 CFLAGS  := -std=gnu99 $(COMMON) $(INC) -Wall -Wextra -Wno-unused-parameter
 # ufw/compat/ssize-t.h has an unbalanced extern "C" brace under C++ when sys/types.h exists: bypass it
-CXXFLAGS:= -std=gnu++17 $(COMMON) $(INC) -I$(ROOT)/sim -DINC_UFW_UFW_COMPAT_SSIZE_T_H -include sys/types.h -include limits.h -include stdint.h -Wall -Wextra -Wno-unused-parameter -Wno-missing-field-initializers -Wno-c99-designator -Wno-unused-function
+CXXFLAGS:= -std=gnu++17 $(COMMON) $(INC) -I$(ROOT)/sim -DINC_UFW_UFW_COMPAT_SSIZE_T_H -include sys/types.h -include limits.h -include stdint.h -Wall -Wextra -Wno-unused-parameter -Wno-missing-field-initializers -Wno-c99-designator -Wno-unused-function -Wno-misleading-indentation
 LDFLAGS := $(SAN) -lm
 
 LIBSRC := allocator.c crc-16-arc.c endpoints/buffer.c endpoints/continuable-sink.c endpoints/core.c \
@@ -42,6 +45,13 @@ SIMHDR    := $(wildcard $(ROOT)/sim/*.hpp)
 .SECONDARY:
 .PHONY: setup all clean
 setup all: $(BINS)
+# the default build also builds its release-build twin (assert() compiled out) under $(BUILD)/nd
+ifeq ($(EXTRA_DEFS)$(PLAIN),)
+.PHONY: nd
+setup all: nd
+nd:
+	@$(MAKE) -s -C $(ROOT) UFW_SRC=$(UFW_SRC) BUILD=$(BUILD)/nd EXTRA_DEFS=-DNDEBUG all
+endif
 
 TOOLCHAIN_H := $(BUILD)/cfg/include/ufw/toolchain.h
 $(TOOLCHAIN_H): $(UFW_SRC)/include/ufw/toolchain.h.in $(UFW_SRC)/CMakeLists.txt
